@@ -10,8 +10,8 @@ import (
 	sdk "github.com/cosmos/cosmos-sdk/types"
 	banktypes "github.com/cosmos/cosmos-sdk/x/bank/types"
 
-	"github.com/ovrclk/akash/x/escrow"
 	dtypes "github.com/ovrclk/akash/x/deployment/types"
+	"github.com/ovrclk/akash/x/escrow"
 	etypes "github.com/ovrclk/akash/x/escrow/types"
 	mtypes "github.com/ovrclk/akash/x/market/types"
 
